@@ -34,6 +34,21 @@ CHECKS = {
          "TLC checks on the string-level model that a field wider than its column never corrupts a neighbour (Confined) and that Faithful fails exactly by cutting; every replayed shape's real text and re-read fields must equal the model's (zero drift) and the C08 clauses (fixed columns, plain tokenisation, pdb2pqr's reader) are evaluated by TLC on the observed text; the formatter's width limits are listed as known findings by field.",
          "Number->text conversion is outside the spec (values are exact decimals); |charge| < 10, radius < 10; thorough replays a covering subset (every value, pairs of width-relevant fields, random points) of the product TLC explores.",
          "DESIGN.md 6/C08", ["PqrFormat", "PqrFormatTrace"]),
+ "C12": ("fault_enumeration",
+         "TLA+ spec Pipeline (stage machine with faults): TLC exhaustive over all option sets x fault stages x initial output state; TLC-emitted fault table injected into real runs (entry/exit of every stage, three exception classes, output absent / old file) plus natural failure causes and a success corpus; TLC trace validation (PipelineTrace) of the recorded stage events",
+         "The stage x fault x option-class space is enumerated by TLC and every row is realised on the real code: the stage callable is made to raise, the run must surface an exception and the output path (absent, or an old file checked by bytes and mtime) must be unchanged; the trace validator also checks on every run that only print_pqr changes the path and only after all enabled computing stages finished; generated unusable inputs/options must fail loudly and complete ALA-X-ALA peptides of every residue type must succeed under every force field.",
+         "Faults are Python exceptions at stage boundaries (not I/O errors inside a write); stage wrappers and digest sampling are harness code; a failure after the PQR was written completely (pdb-output/apbs stages) may leave it in place; nucleic-acid success corpus is part of C02.",
+         "DESIGN.md 6/C12", ["Pipeline", "MC_Pipeline", "PipelineTrace"]),
+ "C09": ("model_checking",
+         "TLA+ spec Pipeline2 (self-composition of the stage machine): TLC exhaustive NonInterference over all computing option sets x formatting subsets; TLC-emitted option pairs run on the real code with stage wrappers; TLC pair validation (Pipeline2Trace) of per-stage digests and PQR atom records; drop-water and neutral-terminus relations",
+         "TLC proves on the stage model (table of what each stage writes and which options it reads) that formatting/naming options cannot influence coordinates, charges, radii or order; for every replayed pair of runs the digests of coordinates and charges/radii after each computing stage and the number columns, order and atom count of the two PQR files must be equal, names may differ only with --ffout, the chain column only with --keep-chain; --drop-water must equal deleting the waters from the input (also with colliding serial numbers); --neutraln/--neutralc must change only chain-terminal residues and shift the total charge by -1/+1 per terminus.",
+         "Replayed pairs are a seeded subset of the lattice TLC explores (quick) on two generated inputs and cterm_hid.pdb; PQR parsing is harness code.",
+         "DESIGN.md 6/C09", ["Pipeline", "Pipeline2", "MC_Pipeline2", "Pipeline2Trace"]),
+ "C11": ("model_checking",
+         "TLA+ spec History (process-lifetime state across runs): TLC exhaustive over all histories <= 3 of nine configurations; TLC-emitted histories executed in fresh interpreters under several hash seeds (incl. the console entry point); TLC trace validation (HistoryTrace): one outcome per configuration",
+         "Every history TLC emits is run in its own interpreter through run_pdb2pqr; the digest of the PQR bytes (or the exception class) of each run is recorded and TLC requires the outcome to be a function of the configuration across positions, histories, processes and hash seeds; configurations include same --ff with different --usernames, two user force fields, an input needing multi-atom repair, failing runs and a PROPKA run.",
+         "Hash seeds and (in quick) histories of length 3 are sampled; nine configurations; verdict on output bytes only.",
+         "DESIGN.md 6/C11", ["History", "HistoryTrace"]),
 }
 
 NOT_YET = "check not built yet (build round in progress); planned per DESIGN.md section 6"
